@@ -4,13 +4,14 @@ CONSTANTS
   RxShapes <- C_Shapes
   RxPorts = {1, 2}
   OutShapes = {"u_udp"}
-  InPorts = {1, 2, 65535}
-  FlowLists <- C_FlowLists
+  InPorts = {2, 65535}
+  FlowLists <- CQ_FlowLists
   OutLists <- C_OutLists
   BufLists = {}
   ModPorts = {1}
   ModOps <- CQ_ModOps
   BadMods = {"badport", "badhw"}
+  BadOps <- C_BadOps
   FragModes = {}
   DropCount <- Both
   MissLen = 128
@@ -19,7 +20,6 @@ CONSTANTS
 INIT Init
 NEXT Next
 VIEW viewE
-ACTION_CONSTRAINT ExportT
 INVARIANT TypeOK
 PROPERTY NoEmitBlocked
 PROPERTY IngressExcluded
@@ -31,4 +31,5 @@ PROPERTY MissRule
 PROPERTY CountersExact
 PROPERTY PortModExact
 PROPERTY BufferedAsSent
+ACTION_CONSTRAINT ExportT
 CHECK_DEADLOCK FALSE
